@@ -342,6 +342,31 @@ Proof.
   - intros [= <-]. destruct (ipmatch_crash _ _ Ei) as [-> | ->]; reflexivity.
 Qed.
 
+Lemma route_windows_some line ip w m :
+  route_windows line = Ok (Some ((ip, w), m)) -> ip < 2 ^ 32 /\ (0 <= w)%Z /\ (0 <= m <= 32)%Z.
+Proof.
+  unfold route_windows. destruct (negb (contains s_onlink line)); [discriminate|].
+  destruct (words line) as [|c0 [|c1 cs]]; try discriminate.
+  destruct (bytes_eqb c1 s_bcast); [discriminate|].
+  destruct (win_skip c0); [discriminate|].
+  destruct (ipmatch c0) as [ipw|e] eqn:Ei; cbn [bind]; [|discriminate].
+  destruct (ipmatch c1) as [maskw|e]; cbn [bind]; [|discriminate].
+  destruct ipw as [[ip' w']|]; [|discriminate]. intros [= <- <- <-].
+  destruct (ipmatch_some _ _ _ Ei) as [H1 H2]. pose proof (maskbits_range maskw). lia.
+Qed.
+
+Lemma route_windows_crash line e : route_windows line = Crash e -> caught e = true.
+Proof.
+  unfold route_windows. destruct (negb (contains s_onlink line)); [discriminate|].
+  destruct (words line) as [|c0 [|c1 cs]]; try (intros [= <-]; reflexivity).
+  destruct (bytes_eqb c1 s_bcast); [discriminate|].
+  destruct (win_skip c0); [discriminate|].
+  destruct (ipmatch c0) as [ipw|e'] eqn:Ei; cbn [bind].
+  - destruct (ipmatch c1) as [maskw|e'] eqn:Em; cbn [bind]; [discriminate|].
+    intros [= <-]. destruct (ipmatch_crash _ _ Em) as [-> | ->]; reflexivity.
+  - intros [= <-]. destruct (ipmatch_crash _ _ Ei) as [-> | ->]; reflexivity.
+Qed.
+
 Definition canonical_route (r : route) : Prop :=
   exists ip w, ip < 2 ^ 32 /\ w <= 32 /\
     r = mkRoute AF_INET (dotted_quad (network ip w)) (Z.of_N w).
@@ -354,11 +379,12 @@ Proof.
   - destruct (route_iproute_some _ _ _ _ H). lia.
   - destruct (route_netstat_some _ _ _ _ H) as (? & ? & ?). lia.
   - discriminate.
+  - destruct (route_windows_some _ _ _ _ H) as (? & ? & ?). lia.
 Qed.
 
 Lemma extractor_crash t line e : extractor t line = Crash e -> caught e = true.
 Proof.
-  destruct t; cbn [extractor]; [apply route_iproute_crash|apply route_netstat_crash|discriminate].
+  destruct t; cbn [extractor]; [apply route_iproute_crash|apply route_netstat_crash|discriminate|apply route_windows_crash].
 Qed.
 
 (* the repaired scanner: a route (canonical) or a skip, never an exception *)
@@ -391,7 +417,8 @@ Qed.
 Lemma raw_routes_total t out :
   exists rs, raw_routes t out = Ok rs /\ Forall canonical_route rs.
 Proof.
-  unfold raw_routes. destruct t; try apply (scan_lines_total IpRoute); try apply (scan_lines_total Netstat).
+  unfold raw_routes. destruct t; try apply (scan_lines_total IpRoute); try apply (scan_lines_total Netstat);
+    try apply (scan_lines_total RouteWin).
   exists []. split; [reflexivity|constructor].
 Qed.
 
@@ -1237,3 +1264,158 @@ Qed.
 
 Lemma ipmatch_default : ipmatch s_default = Ok (Some (0, 0%Z)).
 Proof. reflexivity. Qed.
+
+(* ================================================================== *)
+(* 9. Windows `route PRINT -4`                                          *)
+
+Lemma contains_prefix p s : starts_with p s = true -> contains p s = true.
+Proof. intros H. destruct s; cbn [contains]; rewrite H; reflexivity. Qed.
+
+Lemma starts_with_self p r : starts_with p (p ++ r) = true.
+Proof. induction p as [|a p IH]; [reflexivity|]. cbn [app starts_with]. rewrite Ascii.eqb_refl. exact IH. Qed.
+
+Lemma contains_skip p x y : contains p y = true -> contains p (x ++ y) = true.
+Proof.
+  intros H. induction x as [|a x IH]; [exact H|].
+  cbn [app contains]. rewrite IH. apply orb_true_r.
+Qed.
+
+Lemma contains_here p x r : contains p (x ++ p ++ r) = true.
+Proof. apply contains_skip, contains_prefix, starts_with_self. Qed.
+
+(* the four skipped prefixes on a rendered address: decided by its first two octets *)
+Definition winskip_prop (a b : N) : bool :=
+  let x := dec a ++ DOT :: dec b ++ [DOT] in
+  forallb (fun p => decided p x) win_skip_prefixes &&
+  Bool.eqb (win_skip x) ((a =? 127) || (a =? 0) || (a =? 224) || ((a =? 169) && (b =? 254))).
+
+Lemma winskip_sweep : forallb (fun a => forallb (winskip_prop a) (range 256)) (range 256) = true.
+Proof. vm_compute. reflexivity. Qed.
+
+Lemma win_skip_app x r :
+  forallb (fun p => decided p x) win_skip_prefixes = true -> win_skip (x ++ r) = win_skip x.
+Proof.
+  unfold win_skip, win_skip_prefixes. cbn [forallb existsb]. intros H.
+  repeat (apply andb_prop in H; destruct H as [? H]).
+  rewrite !starts_with_app by assumption. reflexivity.
+Qed.
+
+Lemma win_skip_spec ip : ip < 2 ^ 32 ->
+  win_skip (dotted_quad ip) =
+  (o1 ip =? 127) || (o1 ip =? 0) || (o1 ip =? 224) || ((o1 ip =? 169) && (o2 ip =? 254)).
+Proof.
+  intros H. destruct (octets_lt ip H) as (H1 & H2 & _ & _).
+  pose proof (sweep _ _ winskip_sweep (o1 ip) H1) as S1. cbv beta in S1.
+  pose proof (sweep _ _ S1 (o2 ip) H2) as S. unfold winskip_prop in S. cbv zeta in S.
+  apply andb_prop in S. destruct S as [Sd Se]. apply Bool.eqb_prop in Se.
+  rewrite dotted_quad_eq.
+  change (dec (o1 ip) ++ DOT :: dec (o2 ip) ++ DOT :: dec (o3 ip) ++ DOT :: dec (o4 ip))
+    with (dec (o1 ip) ++ DOT :: dec (o2 ip) ++ [DOT] ++ (dec (o3 ip) ++ DOT :: dec (o4 ip))).
+  replace (dec (o1 ip) ++ DOT :: dec (o2 ip) ++ [DOT] ++ dec (o3 ip) ++ DOT :: dec (o4 ip))
+    with ((dec (o1 ip) ++ DOT :: dec (o2 ip) ++ [DOT]) ++ (dec (o3 ip) ++ DOT :: dec (o4 ip)))
+    by (rewrite <- app_assoc; cbn [app]; rewrite <- app_assoc; reflexivity).
+  rewrite (win_skip_app _ _ Sd). exact Se.
+Qed.
+
+(* a rendered contiguous netmask equals "255.255.255.255" exactly for width 32 *)
+Lemma bcast_sweep : forallb (fun w => Bool.eqb (bytes_eqb (dotted_quad (netmask w)) s_bcast) (w =? 32)) (range 33) = true.
+Proof. vm_compute. reflexivity. Qed.
+
+Lemma netmask_not_bcast w : w < 32 -> bytes_eqb (dotted_quad (netmask w)) s_bcast = false.
+Proof.
+  intros H. assert (Hlt : w < N.of_nat 33) by lia.
+  pose proof (sweep _ _ bcast_sweep w Hlt) as S. cbv beta in S. apply Bool.eqb_prop in S.
+  rewrite S. apply N.eqb_neq. lia.
+Qed.
+
+Lemma words2 lead c0 sp1 c1 rest :
+  forallb is_space_s lead = true -> tokn c0 -> spaces sp1 -> tokn c1 -> rest_ok rest ->
+  words (lead ++ c0 ++ sp1 ++ c1 ++ rest) = c0 :: c1 :: words rest.
+Proof.
+  intros Hl [H0n H0] Hs1 [H1n H1] Hr.
+  rewrite (words_lead lead _ Hl).
+  rewrite (words_tok c0 _ H0n H0 (spaces_rest_ok sp1 _ Hs1)).
+  rewrite (words_lead sp1 _ (proj2 Hs1)).
+  rewrite (words_tok c1 _ H1n H1 Hr). reflexivity.
+Qed.
+
+Lemma onlink_rest_ok sp2 rest : forallb is_space_s sp2 = true -> rest_ok (sp2 ++ s_onlink ++ rest).
+Proof.
+  intros H. destruct sp2 as [|c s]; [reflexivity|]. cbn in *.
+  apply andb_prop in H. destruct H as [-> _]. reflexivity.
+Qed.
+
+(* general two-column form: destination, netmask, then " On-link " somewhere behind *)
+Lemma windows_line_gen lead c0 sp1 c1 sp2 rest ip w0 maskw :
+  forallb is_space_s lead = true -> tokn c0 -> spaces sp1 -> tokn c1 -> forallb is_space_s sp2 = true ->
+  all_ascii (lead ++ c0 ++ sp1 ++ c1 ++ sp2 ++ s_onlink ++ rest) = true ->
+  bytes_eqb c1 s_bcast = false -> win_skip c0 = false ->
+  ipmatch c0 = Ok (Some (ip, w0)) -> ipmatch c1 = Ok maskw ->
+  (Z.min w0 (maskbits maskw) <= 32)%Z ->
+  scan_line route_windows (lead ++ c0 ++ sp1 ++ c1 ++ sp2 ++ s_onlink ++ rest) =
+  Ok (Some (mkRoute AF_INET
+             (dotted_quad (network ip (Z.to_N (Z.min w0 (maskbits maskw)))))
+             (Z.min w0 (maskbits maskw)))).
+Proof.
+  intros Hl H0 Hs1 H1 Hs2 Hasc Hb Hsk Hi0 Hi1 Hle.
+  unfold scan_line.
+  destruct c0 as [|c t] eqn:Ec0; [destruct H0; contradiction|].
+  assert (Hcs : is_space_s c = false).
+  { destruct H0 as [_ H0]. cbn in H0. apply andb_prop in H0. apply negb_true_iff, H0. }
+  rewrite (not_blank_tok lead c t _ Hcs), Hasc. cbn [negb].
+  unfold route_windows.
+  assert (Hc : contains s_onlink (lead ++ (c :: t) ++ sp1 ++ c1 ++ sp2 ++ s_onlink ++ rest) = true).
+  { do 5 apply contains_skip. apply contains_prefix, starts_with_self. }
+  rewrite Hc. cbn [negb].
+  rewrite (words2 lead (c :: t) sp1 c1 _ Hl H0 Hs1 H1 (onlink_rest_ok sp2 rest Hs2)).
+  rewrite Hb, Hsk, Hi0, Hi1. cbn [bind].
+  pose proof (maskbits_range maskw) as Hm.
+  destruct (ipmatch_some _ _ _ Hi0) as [Hip Hw0].
+  replace (maskbits maskw <? 0)%Z with false by lia.
+  rewrite (route_of_ok ip w0 (maskbits maskw) Hip) by lia. reflexivity.
+Qed.
+
+(* the same shape with a host-route mask or a skipped destination: no route *)
+Lemma windows_line_skipped lead c0 sp1 c1 sp2 rest :
+  forallb is_space_s lead = true -> tokn c0 -> spaces sp1 -> tokn c1 -> forallb is_space_s sp2 = true ->
+  bytes_eqb c1 s_bcast = true \/ win_skip c0 = true ->
+  scan_line route_windows (lead ++ c0 ++ sp1 ++ c1 ++ sp2 ++ s_onlink ++ rest) = Ok None.
+Proof.
+  intros Hl H0 Hs1 H1 Hs2 Hsk. unfold scan_line.
+  destruct (is_blank _); [reflexivity|]. destruct (negb (all_ascii _)); [reflexivity|].
+  unfold route_windows.
+  assert (Hc : contains s_onlink (lead ++ c0 ++ sp1 ++ c1 ++ sp2 ++ s_onlink ++ rest) = true).
+  { do 5 apply contains_skip. apply contains_prefix, starts_with_self. }
+  rewrite Hc. cbn [negb].
+  rewrite (words2 lead c0 sp1 c1 _ Hl H0 Hs1 H1 (onlink_rest_ok sp2 rest Hs2)).
+  destruct Hsk as [-> | Hsk]; [reflexivity|]. rewrite Hsk. destruct (bytes_eqb c1 s_bcast); reflexivity.
+Qed.
+
+Lemma windows_no_onlink line : contains s_onlink line = false -> scan_line route_windows line = Ok None.
+Proof.
+  intros H. unfold scan_line. destruct (is_blank line); [reflexivity|].
+  destruct (negb (all_ascii line)); [reflexivity|]. unfold route_windows. rewrite H. reflexivity.
+Qed.
+
+(* `route PRINT -4`: destination, contiguous netmask of width w < 32, On-link *)
+Lemma windows_line lead ip sp1 w sp2 rest : ip < 2 ^ 32 -> w < 32 ->
+  forallb is_space_s lead = true -> spaces sp1 -> forallb is_space_s sp2 = true -> all_ascii rest = true ->
+  win_skip (dotted_quad ip) = false ->
+  scan_line route_windows (lead ++ dotted_quad ip ++ sp1 ++ dotted_quad (netmask w) ++ sp2 ++ s_onlink ++ rest) =
+  Ok (Some (mkRoute AF_INET (dotted_quad (network ip w)) (Z.of_N w))).
+Proof.
+  intros Hip Hw Hl Hs1 Hs2 Hra Hsk.
+  assert (Hw' : w <= 32) by lia.
+  pose proof (netmask_lt w Hw') as Hm.
+  destruct (dotted_quad_tokn ip Hip) as [Ht0 Ha0].
+  destruct (dotted_quad_tokn _ Hm) as [Ht1 Ha1].
+  assert (Hsa : forall s, forallb is_space_s s = true -> all_ascii s = true).
+  { intros s Hs. unfold all_ascii. exact (forallb_impl _ _ _ space_s_ascii Hs). }
+  assert (Hasc : all_ascii (lead ++ dotted_quad ip ++ sp1 ++ dotted_quad (netmask w) ++ sp2 ++ s_onlink ++ rest) = true).
+  { unfold all_ascii in *. rewrite !forallb_app', Ha0, Ha1, Hra, (Hsa sp1 (proj2 Hs1)), (Hsa sp2 Hs2), (Hsa lead Hl). reflexivity. }
+  pose proof (maskbits_contiguous w 32%Z Hw') as Hmb.
+  rewrite (windows_line_gen lead _ sp1 _ sp2 rest ip 32%Z (Some (netmask w, 32%Z))
+             Hl Ht0 Hs1 Ht1 Hs2 Hasc (netmask_not_bcast w Hw) Hsk (ipmatch_quad ip Hip) (ipmatch_quad _ Hm))
+    by (rewrite Hmb; lia).
+  rewrite Hmb. replace (Z.min 32 (Z.of_N w)) with (Z.of_N w) by lia. rewrite N2Z.id. reflexivity.
+Qed.
